@@ -55,6 +55,9 @@ func Commit(db objects.Store, rs ref.Store, id uuid.UUID) (commits map[string]*o
 	if err != nil {
 		return nil, err
 	}
+	if tx.Status != ref.TSInProgress {
+		return nil, fmt.Errorf("cannot commit transaction %s: transaction is %s", id, tx.Status)
+	}
 	m, err := ref.ListTransactionRefs(rs, id)
 	if err != nil {
 		return nil, err
@@ -97,6 +100,13 @@ func Commit(db objects.Store, rs ref.Store, id uuid.UUID) (commits map[string]*o
 }
 
 func Discard(rs ref.Store, id uuid.UUID) (err error) {
+	tx, err := rs.GetTransaction(id)
+	if err != nil {
+		return err
+	}
+	if tx.Status == ref.TSCommitted {
+		return fmt.Errorf("cannot discard committed transaction")
+	}
 	if err = ref.DeleteTransactionRefs(rs, id); err != nil {
 		return
 	}
